@@ -514,3 +514,34 @@ func escapes(a *ssa.Alloc) bool {
 	}
 	return visit(a, 0)
 }
+
+// Deref returns the record stored in a local/heap allocation (composite literal behind a pointer); other terms are
+// returned unchanged.
+func (ev *Eval) Deref(t *Term) *Term {
+	if t == nil || t.K != KAlloc {
+		return t
+	}
+	obj, ok := ev.E.objBySerial[t.N]
+	if !ok {
+		return t
+	}
+	owner := ev.ownerOf(obj)
+	if owner == nil {
+		return t
+	}
+	if r := owner.assemble(obj, nil, nil); r != nil {
+		return owner.Resolve(r)
+	}
+	return t
+}
+
+// AllocType returns the allocated (pointee) type of a KAlloc term.
+func (ev *Eval) AllocType(t *Term) types.Type {
+	if t == nil || t.K != KAlloc {
+		return nil
+	}
+	if a, ok := ev.E.objBySerial[t.N].(*ssa.Alloc); ok {
+		return a.Type().(*types.Pointer).Elem()
+	}
+	return nil
+}
